@@ -203,6 +203,12 @@ func (t *fnTrans) call(ins ssa.Instruction, c *ssa.CallCommon, res ssa.Value) {
 			t.vals[res] = rv
 		}
 		bindResults(env, ct, sig, rv)
+		// result names are plain values: also visible inside old(...)
+		for k, v := range env.vars {
+			if _, ok := env.oldVars[k]; !ok {
+				env.oldVars[k] = v
+			}
+		}
 	}
 	t.applyModifies(ct, env, oldSt)
 	for _, g := range ct.GhostOut {
@@ -230,6 +236,33 @@ func (t *fnTrans) call(ins ssa.Instruction, c *ssa.CallCommon, res ssa.Value) {
 	}
 	for _, e := range env.errs {
 		t.errorf("contract of %s at call site: %s", name, e)
+	}
+	// facts the calling function's contract assumes about this callee (trusted; old() = state before the call)
+	for key, cls := range t.ct.AtCallAssume {
+		if key != name && key != t.eng.shortName(name) {
+			continue
+		}
+		aenv := t.specEnv(t.st, oldSt)
+		for _, li := range t.loops {
+			if li.body[t.cur] && li.headVars != nil {
+				for k, v := range li.headVars {
+					if _, ok := aenv.vars[k]; !ok {
+						aenv.vars[k] = v
+					}
+				}
+			}
+		}
+		for k, v := range env.vars {
+			if _, ok := aenv.vars[k]; !ok {
+				aenv.vars[k] = v
+			}
+		}
+		for _, cl := range cls {
+			t.assume(aenv.evalBool(cl.Expr))
+		}
+		for _, e := range aenv.errs {
+			t.errorf("atcall %s assumes: %s", key, e)
+		}
 	}
 	if ct.Flags["yield"] != "" {
 		t.interfere(ins)
@@ -437,6 +470,7 @@ func (t *fnTrans) resolveLoc(loc string, env *specEnv, pre *State) (l location, 
 					hs := t.eng.heapSort[prefix]
 					if hs == "" && strings.HasPrefix(prefix, "GF.") {
 						hs = arrSort("Int")
+						t.eng.heapSort[prefix] = hs
 					}
 					l.heaps = append(l.heaps, prefix)
 					l.sorts = append(l.sorts, hs)
@@ -463,6 +497,24 @@ func (t *fnTrans) resolveLoc(loc string, env *specEnv, pre *State) (l location, 
 			}
 			l.kind = locAllField
 			t.collectStructHeaps(T, &l)
+			return l, true
+		case "allmaps":
+			// allmaps(map[K]V): every map of that type
+			T := env.typeExpr(n.Args[0])
+			mt, isM := under(T).(*types.Map)
+			if T == nil || !isM {
+				t.errorf("modifies allmaps: not a map type")
+				return
+			}
+			l.kind = locAllElems
+			dn, ds := mapDomHeap(mt)
+			l.heaps = append(l.heaps, dn)
+			l.sorts = append(l.sorts, ds)
+			for _, c := range flatten(mt.Elem()) {
+				vn, vs := mapValHeap(mt, c.Suffix, c.Sort)
+				l.heaps = append(l.heaps, vn)
+				l.sorts = append(l.sorts, vs)
+			}
 			return l, true
 		case "allelems":
 			T := env.typeExpr(n.Args[0])
@@ -809,6 +861,13 @@ func (t *fnTrans) locHeapNames(ct *Contract, loc string, c *ssa.CallCommon) []st
 	t.errs = t.errs[:nerr]
 	if !ok {
 		return nil
+	}
+	for i, hn := range l.heaps {
+		if i < len(l.sorts) && l.sorts[i] != "" {
+			if _, known := t.eng.heapSort[hn]; !known {
+				t.eng.heapSort[hn] = l.sorts[i]
+			}
+		}
 	}
 	return l.heaps
 }
